@@ -15,18 +15,22 @@ add('C01', "TLC evaluates the TLA+ documented-semantics operator PegSem!Parse on
     "each expected outcome (accept/reject, end offset, AST) is replayed into the real compiled model. Exhaustive within the stated bounds, "
     "so a change to AST assembly, choice order, repetition, lookahead or whitespace placement that alters any case of the universe is reported. "
     "Code->spec: executions of the real engine recorded through the Tracer seam (enter/ok/fail/cut/match events) are validated by TLC against "
-    "spec/PegTrace.tla (the implementation-shaped machine PegMachine); corrupted copies of the traces must be rejected in the same run.",
+    "spec/PegTrace.tla (the implementation-shaped machine PegMachine); corrupted copies of the traces must be rejected in the same run. The parses "
+    "the repository's own tests perform with the model interpreter (arbitrary real grammars, with and without semantics objects) are recorded by a "
+    "pytest plugin and validated the same way (regexes and whitespace through oracle tables, actions through recorded act events).",
     "Trusted: TLC, Python re for catalogue patterns, the projection harness/absgrammar.py (to_ebnf/norm). Shapes the documents leave open "
     "(spec/UNSPECIFIED.md, predicate PegGrammar!Unspecified) are checked for accept/reject and end position only.",
     "TLA+ spec PegSem evaluated by TLC (exhaustive small universe + seeded random) with spec->code replay into tatsu.compile(...).parse; recorded engine traces validated against PegTrace/PegMachine", "5 C01, 3.2, 3.5")
 
-add('C02', "For every grammar of the universe TLC evaluates PegSem!Parse; the generated Python source is compiled (valid-Python claim), executed, "
-    "and run on every text under the settings matrix {defaults, ignorecase, nameguard off, whitespace override, parseinfo}; its outcome must equal "
-    "the model's outcome (all shapes) and conform to the specification (specified shapes). Divergences explained by a listed deviation "
-    "(KF-C02-1 last-node binding, KF-C02-2 define only in sequences) are printed as known findings; anything else is a violation.",
-    "Trusted: TLC, Python re, projections in harness/absgrammar.py. Known-finding scopes are static predicates over the grammar (harness/drivers/c02.py); "
-    "an unrelated divergence inside such a grammar that only changes the AST could be attributed to the listed finding.",
-    "TLA+ spec PegSem evaluated by TLC + spec->code replay into generated parsers and the model (three-way comparison)", "5 C02, 3.6")
+add('C02', "For every grammar of the universe TLC evaluates PegSem!Parse and model-checks spec/PegMachine.tla in two flavours: the model interpreter and the "
+    "generated parser (Cfg.backend = gen: names and overrides bind the frame's last node, define() only at sequences, grammar not optimized). The "
+    "generated Python source is compiled (valid-Python claim), executed, and run on every text under the settings matrix {defaults, ignorecase, "
+    "nameguard off, whitespace override, parseinfo}; the generated parser must follow its flavour of the machine on every shape (value included), and "
+    "its outcome must equal the model's. A difference between the two back-ends is printed as a known finding (KF-C02-1 last-node binding, KF-C02-2 "
+    "define only in sequences) only if the grammar is in the finding's scope AND the two flavours predict exactly the two observed outcomes; anything "
+    "else is a violation.",
+    "Trusted: TLC, Python re, projections in harness/absgrammar.py. A departure common to both back-ends is C01's verdict, not C02's.",
+    "TLA+ specs PegSem (oracle) and PegMachine in model and generated-parser flavours model-checked by TLC + spec->code replay into generated parsers and the model", "5 C02, 0.4")
 add('C03', "TLC evaluates PegSem!Parse (seed growing with a dynamic head, docs/left_recursion.rst) on 11 families of layered left-recursive grammars "
     "under all 24 assignments of rule names x every operator/operand string up to the bound; every outcome (accept/reject, end, left-nested AST) "
     "is replayed into the real model under recursion-limit and wall-clock guards (RecursionError/timeout = violation). Exhaustive within bounds. "
@@ -53,9 +57,11 @@ add('C04', "(1) spec/PegMachine.tla is the implementation-shaped small-step mach
 add('C06', "PegSem carries the action family as a behaviour constant (identity, tagging, FailedSemantics on a predicate, raise); TLC evaluates it for "
     "every (grammar, text); model and generated parser are run with 16 concrete semantics objects (10 exception types, _default only, declared "
     "parameters) and compared: value flow, alternatives after FailedSemantics, exception type/object reaching the caller, identity == no semantics, "
-    "@nomemo call counts == invocations (memoization-off count), memoized counts <= that.",
+    "@nomemo call counts == invocations (memoization-off count), memoized counts <= that. Code->spec: executions with the stateless members of the "
+    "family are recorded and validated by TLC against PegTrace: a non-memoizable (@nomemo) rule must show a body evaluation after every entry, a "
+    "memoized rule may replay only what an earlier evaluation at that (position, rule) produced, FailedSemantics included.",
     "Trusted: TLC, projections. Action call counts are compared with the memoization-off run of the same parser, not with a spec count.",
-    "TLA+ spec PegSem (Act family) evaluated by TLC + replay with generated semantics objects", "5 C06")
+    "TLA+ spec PegSem (Act family) evaluated by TLC + replay with generated semantics objects + recorded executions validated against PegTrace/PegMachine", "5 C06, 3.5")
 add('C09', "(A) PegSem's lexical level (Skip fixpoint over whitespace, eol comments, comments; where it is applied; nameguard/namechars; ignorecase) "
     "evaluated by TLC on 11 token grammars x 8 configurations x every layout (each gap kind in each slot) of token sequences; replayed into model and "
     "generated parser with comment patterns given as directives and as settings. (B) spec/ConfigLayers.tla (TLC: Precedence, NoLeak) enumerates every "
@@ -157,14 +163,17 @@ add('C14', "spec/AsJson.tla: the depth-first walk of asjson (containers on the c
     "Trusted: TLC, projections. Shared (acyclic) references may be expanded rather than referenced: the claim checked is termination, dumpability and cycle cutting.",
     "TLA+ spec AsJson (exhaustive object graphs) + PegSem as oracle of the original grammar + serialisation round-trip replay", "5 C14, 3.7")
 
-add('C15', "Four ways from a grammar text to a grammar model - the checked-in generated parser behind tatsu.compile, the parser compiled from "
+add('C15', "(1) Four ways from a grammar text to a grammar model - the checked-in generated parser behind tatsu.compile, the parser compiled from "
     "tatsu/_tatsu.ebnf, a parser regenerated from that file, and the checked-in GRAMMAR_MODEL - are run on the full-language corpus, a syntax-variant "
     "corpus written to cover every production and option of the TatSu grammar (incl. deprecated forms), seeded random core grammars and their "
-    "character-level mutants; they must make the same accept/reject decision and build equal models (from_model). Differential validation of three "
-    "derived parsers against the grammar file; no TLA+ model of the TatSu grammar is evaluated here yet (DESIGN 5 C15 / 8).",
-    "Trusted: the projection from_model; the corpus construction for production coverage (not measured on a specification).",
-    "differential execution of the bootstrap parser, the compiled grammar file, a regenerated parser and the shipped model (translation validation)",
-    "5 C15, 8", level='translation_validation')
+    "character-level mutants; they must make the same accept/reject decision and build equal models (from_model). (2) The executions of the checked-in "
+    "bootstrap parser on that corpus (accepted and rejected texts) and in the repository's own tests are recorded through the Tracer seam and validated "
+    "by TLC against spec/PegTrace.tla instantiated with tatsu/_tatsu.ebnf (generated-parser flavour of PegMachine): every option tried, every backtrack, "
+    "cut and memo replay, and every node handed to a GrammarSemantics action must be what the grammar file prescribes; corrupted traces must be rejected.",
+    "Trusted: the projection from_model; harness/frompeg.py (grammar file -> abstract grammar; regexes and whitespace/comment skipping tabulated with Python re); "
+    "the corpus construction for production coverage. Texts longer than 400 characters are compared differentially only.",
+    "differential execution of four routes + trace validation of the bootstrap parser against the TLA+ machine (PegTrace/PegMachine) instantiated with the grammar file",
+    "5 C15, 0.3", level='translation_validation')
 
 add('C08', "(1) PegSem's meta expressions (@int @uint @float @bool @name) evaluated by TLC on 10 meta grammars x every text over the characters the matchers "
     "are sensitive to (digits, signs, dot, exponent letter, underscore, letter, space); replayed on TextLines and the legacy Buffer with parseinfo on/off: "
